@@ -249,6 +249,32 @@ def random_set_cases(rnd, count, length, nkeys):
     return cases
 
 
+def pool_cases(rnd, quick):
+    """XalanDOMStringPool / XalanDOMStringHashTable: strings over two code units up to length 3, so that every string is a prefix
+    of others; with 1 and 2 buckets everything collides, with the default 101 the table is the usual one.  Systematic: every
+    ordered triple of strings (quick: a third of them) requested and then looked up; seeded: long histories with clear()."""
+    import itertools
+    U = [97, 98]
+    strs = [[]] + [list(t) for n in (1, 2, 3) for t in itertools.product(U, repeat=n)]
+    cases = []
+    triples = list(itertools.product(range(len(strs)), repeat=3))
+    if quick:
+        triples = triples[rnd.randrange(3)::3]
+    for k, (a, b, c) in enumerate(triples):
+        ops = [{"op": ("get", "getz", "getn")[(k + j) % 3], "src": strs[x]} for j, x in enumerate((a, b, c))]
+        ops += [{"op": "find", "src": strs[x]} for x in (c, a, rnd.randrange(len(strs)))]
+        cases.append({"c": "pool", "p": {"block": 1 + k % 3, "buckets": 1 + k % 2, "bucketSize": 1 + k % 4}, "ops": ops, "tags": ["systematic"]})
+    for n in range(20 if quick else 200):
+        ops = []
+        for i in range(rnd.randint(30, 120)):
+            x = rnd.random()
+            s_ = rnd.choice(strs) if rnd.random() < 0.8 else [rnd.choice(U) for _ in range(rnd.randint(4, 9))]
+            ops.append({"op": "clear"} if x < 0.03 else {"op": "find", "src": s_} if x < 0.3 else {"op": rnd.choice(["get", "getz", "getn"]), "src": s_})
+        cases.append({"c": "pool", "p": {"block": rnd.choice([1, 2, 32]), "buckets": rnd.choice([1, 2, 3, 101]), "bucketSize": rnd.choice([1, 15])},
+                      "ops": ops, "tags": ["random"]})
+    return cases
+
+
 # ---------------------------------------------------------------------------------------- former deviations
 def findings_any_status(prop):
     """all entries of the known-findings files for this property, fixed ones included (vlib returns only `known`)"""
@@ -421,6 +447,7 @@ def run(res, tier, seed):
                 cases.append({"c": m["c"], "p": m["p"], "ops": h, "tags": tags, "model": m["name"] + "-sim"})
             tagcount[m["name"] + "-sim"] = {"histories": len(hs)}
     cases += random_set_cases(rnd, 12 if quick else 60, 140 if quick else 260, 64)
+    cases += pool_cases(rnd, quick)
     random.Random(seed).shuffle(cases)                 # spread long / short executions evenly over the shards
     # ---- RUN
     exe = exe_future.result()
@@ -483,7 +510,8 @@ def run(res, tier, seed):
     res.cov["rule"] = ("executions = shortest histories reaching a transition (pre-state, operation) of the TLC state graphs of MapImpl / "
                        "VectorImpl / StringImpl / ListImpl / DequeImpl: per model every transition whose operation takes a listed branch (up to %d) "
                        "and a seeded sample of the others (up to %d) - TLC itself checks all of them -, plus seeded random histories of XalanSet / default-parameter "
-                       "XalanMap%s; non-trivial = the last operation takes a tagged branch of the transcribed algorithm (rehash, reuse of a "
+                       "XalanMap%s, plus XalanDOMStringPool / XalanDOMStringHashTable against the pool contract of Containers.tla (every ordered triple of the 15 strings of length <= 3 over two units "
+                       "requested and looked up with 1-2 buckets so that prefixes collide, and long seeded histories with clear()); non-trivial = the last operation takes a tagged branch of the transcribed algorithm (rehash, reuse of a "
                        "freed node, bucket compaction, stale bucket reference, reallocation, in-place insertion / self insertion, element "
                        "shifting, block recycling, splice, a path repaired by a fix: commit) or the history is a long random one; distinct by hash of "
                        "(container, parameters, operations)" % (caps[0], caps[1], "" if quick else " and tlc -simulate histories of 40 operations"))
